@@ -1,3 +1,4 @@
 import Iodata.Props.C10
 import Iodata.Props.C20
 import Iodata.Props.C17
+import Iodata.Props.C19
